@@ -137,7 +137,7 @@ def _const(mod, name):
 # ---------------------------------------------------------------------------------------------
 
 
-def expected_sql(E, frag):
+def expected_sql(E, frag, ru):
     SS, FS, ND = E.StepState, E.FileState, E.Need
     ok = f"({SS.RUNNING.value}, {SS.SUCCEEDED.value})"
     ro = frag["REGULAR_OUTPUT_WHERE"]
@@ -208,12 +208,6 @@ def expected_sql(E, frag):
         "JOIN node AS input_node ON input_node.i = dep.source "
         "LEFT JOIN dynamic_dep ON dynamic_dep.i = dep.i WHERE dep.sink = step.node AND (" + ui + ")), "
         "_check_ready = 0 WHERE _check_ready")
-    ru = (
-        "SELECT 1 FROM step_resource AS req LEFT JOIN available_resource AS avail ON avail.name = req.name "
-        "WHERE req.node = node.i AND (avail.name IS NULL OR (avail.units - COALESCE((SELECT SUM(r2.units) "
-        "FROM step_resource AS r2 JOIN step AS s2 ON s2.node = r2.node WHERE r2.name = req.name "
-        f"AND s2.state = {SS.RUNNING.value}), 0)) < req.units)")
-    x["RESOURCE_UNAVAILABLE"] = ru
     x["SELECT_NEXT_STEP"] = (
         "SELECT node.i, node.label, step._has_hash FROM step INDEXED BY step_dispatch "
         "JOIN node ON node.i = step.node WHERE " + dw + " AND step._implied_need > ? AND NOT node.detached AND "
@@ -308,6 +302,42 @@ def parse_check_after_sources(sql: str) -> list[str]:
                 break
         else:
             raise TranslatorError(f"RECURSIVE_CHECK_AFTER_SOURCES: WHERE conjunct not recognised: {conj!r}")
+    return atoms
+
+
+# ---------------------------------------------------------------------------------------------
+# RESOURCE_UNAVAILABLE (inside SELECT_NEXT_STEP): translated, not pinned
+# ---------------------------------------------------------------------------------------------
+
+RU_RE = re.compile(
+    r"SELECT 1 FROM step_resource AS req LEFT JOIN available_resource AS avail ON avail\.name = req\.name "
+    r"WHERE req\.node = node\.i AND \(avail\.name IS NULL OR \(avail\.units - COALESCE\(\(SELECT SUM\(r2\.units\) "
+    r"FROM step_resource AS r2 JOIN step AS s2 ON s2\.node = r2\.node"
+    r"(?P<join> JOIN node AS (?P<n2>\w+) ON (?P=n2)\.i = (?:r2|s2)\.node)? "
+    r"WHERE (?P<where>.*?)\), 0\)\) < req\.units\)")
+
+
+def parse_resource_unavailable(text: str, running: int) -> list[str]:
+    """The named-resource term of the dispatch query: a required resource is unavailable when it is unknown or
+    when the units left after subtracting the units of some set of steps do not suffice.  The frame is compared
+    literally; WHICH steps' units are subtracted (the conjuncts of the inner WHERE) is translated into atoms
+    that the model interprets (Sched.ru_atom_holds)."""
+    m = RU_RE.fullmatch(text)
+    if not m:
+        raise TranslatorError("SQL constant RESOURCE_UNAVAILABLE: frame differs from the shape the model re-expresses")
+    conjs = split_top_and(m.group("where"))
+    if "r2.name = req.name" not in conjs:
+        raise TranslatorError("RESOURCE_UNAVAILABLE: the subtracted units are not those of the required resource")
+    conjs.remove("r2.name = req.name")
+    atoms = []
+    n2 = m.group("n2")
+    for c in conjs:
+        if c == f"s2.state = {running}":
+            atoms.append("RuRunning")
+        elif n2 and c == f"NOT {n2}.detached":
+            atoms.append("RuAttached")
+        else:
+            raise TranslatorError(f"RESOURCE_UNAVAILABLE: inner WHERE conjunct not recognised: {c!r}")
     return atoms
 
 
@@ -600,12 +630,15 @@ def generate():
     ro = sqlexpr.parse(frag["REGULAR_OUTPUT_WHERE"])
     facts["fragments"] = {"unavailable_input": ui, "dispatch_where": dw, "regular_output": ro}
 
-    exp = expected_sql(E, frag)
+    ru_text = norm_sql(_const(SC, "RESOURCE_UNAVAILABLE"))
+    ru_atoms = parse_resource_unavailable(ru_text, SS.RUNNING.value)
+    facts["resource_usage_where"] = ru_atoms
+    exp = expected_sql(E, frag, ru_text)
     actual = {
         "APPLY_SAFE_UPDATE": _const(SC, "APPLY_SAFE_UPDATE"), "SEED_CHECK_AFTER": _const(SC, "SEED_CHECK_AFTER"),
         "UPDATE_CHECK_AFTER": _const(SC, "UPDATE_CHECK_AFTER"),
         "PROPAGATE_CHECK_AFTER": _const(SC, "PROPAGATE_CHECK_AFTER"),
-        "RECOMPUTE_READY": _const(SC, "RECOMPUTE_READY"), "RESOURCE_UNAVAILABLE": _const(SC, "RESOURCE_UNAVAILABLE"),
+        "RECOMPUTE_READY": _const(SC, "RECOMPUTE_READY"),
         "SELECT_NEXT_STEP": _const(SC, "SELECT_NEXT_STEP"),
         "RECURSIVE_CHECK_WITH_PRODUCTS": _const(ST, "RECURSIVE_CHECK_WITH_PRODUCTS"),
         "RECONCILE_TARGET_DIRS": _const(WF, "RECONCILE_TARGET_DIRS"),
@@ -715,6 +748,9 @@ def generate():
     o.append(f"Definition after_sink_default : N := {ND.OPTIONAL.value}.")
     o.append("(* scheduler.SELECT_NEXT_STEP / RESOURCE_UNAVAILABLE / _get_next_step *)")
     o.append(f"Definition resource_running_state : N := {SS.RUNNING.value}.")
+    o.append("(* scheduler.RESOURCE_UNAVAILABLE: which steps' units are subtracted from the available ones *)")
+    o.append("Inductive ru_atom := RuRunning | RuAttached.")
+    o.append(f"Definition ru_where : list ru_atom := {lst(ru_atoms)}.")
     o.append(f"Definition dispatch_state_with_hash : N := {SS.CHECKING.value}.")
     o.append(f"Definition dispatch_state_without_hash : N := {SS.RUNNING.value}.")
     o.append(f"Definition threshold_without_targets : N := {ND.OPTIONAL.value}.")
